@@ -350,7 +350,8 @@ pub struct Hostile {
     max: u64,
     replay_p: f64,
     recorded: Vec<(usize, Vec<u8>)>,
-    /// 1 = mostly data frames (never-completing packets), 2 = flood of empty data frames whose ids are 32 apart
+    /// 1 = mostly data frames (never-completing packets), 2 = flood of empty data frames whose ids are 32 apart,
+    /// 3 = packets announced by their short last fragment only
     focus: u8,
     flood_next: std::collections::BTreeMap<usize, u32>,
 }
@@ -424,6 +425,35 @@ impl Adversary for Hostile {
                     let id = *next;
                     *next = next.wrapping_add(32);
                     enc_data(id, false, &[])
+                } else if self.focus == 3 && self.rng.chance(0.9) {
+                    // "tail first": consecutive packet ids, each announced by its last fragment
+                    // only, with little or no data
+                    let fbase = self.seen[victim].rx_frame_base.or(self.seen[from].tx_frame).unwrap_or(0);
+                    let pbase = match probe {
+                        Probe::Hc(h) => h.rx_packet_base_id,
+                        _ => self.seen[victim].rx_packet_base.unwrap_or(0),
+                    };
+                    let fnext = self.flood_next.entry(victim).or_insert(fbase);
+                    let fid = *fnext;
+                    *fnext = fnext.wrapping_add(1);
+                    let pnext = self.flood_next.entry(victim + 1000).or_insert(pbase);
+                    // stay inside the receive window
+                    if pnext.wrapping_sub(pbase) & 0xFFFFF >= window.min(4096) {
+                        *pnext = pbase;
+                    }
+                    let last = plan.param("hostile_tail_frags", 1.0) as u16;
+                    let mut dgs = Vec::new();
+                    let mut size = 10;
+                    for _ in 0..self.rng.range(1, 40) {
+                        let len = if self.rng.chance(0.5) { 0 } else { self.rng.range(0, 30) as usize };
+                        size += 16 + len;
+                        if size > 1400 {
+                            break;
+                        }
+                        dgs.push(RawDatagram { seq: *pnext & 0xFFFFF, ch: 0, wlead: 0, clead: 0, frag: last, last, data: vec![0x5A; len], enc: 2 });
+                        *pnext = pnext.wrapping_add(1) & 0xFFFFF;
+                    }
+                    enc_data(fid, false, &dgs)
                 } else if self.focus == 1 && self.rng.chance(0.85) {
                     let mut view = self.seen[victim].clone();
                     if let Some(p) = self.seen[from].tx_packet {
